@@ -88,3 +88,45 @@ class SAModel(tuple):
     number = property(lambda s: s[1])
     total = property(lambda s: s[2])
     parity = property(lambda s: s[3])
+
+
+def trace_encode(fx, version, level, boosted, mask_in=None, eci=False, sa_info=None, boost_error=True):
+    """Interpret encoder._encode with every stage replaced by a recording stand-in.  Returns the list of
+    (stage name, positional args, keyword args, len of the bit buffer at the call) and the value returned.
+
+    The stand-ins hand on marker objects ('M0' the fresh matrix, 'M1' the masked one, 'FINAL' the final message) and
+    the pad helpers append bits, so that the order of the stages, the objects passed from stage to stage and a stale
+    length are all visible in the trace."""
+    from .common import levels as _levels, modes as _modes
+    lv, md = _levels(fx), _modes(fx)
+    rec = []
+    bufs = []
+
+    class B(BufModel):
+        def __init__(self):
+            BufModel.__init__(self, 0)
+            bufs.append(self)
+
+    def stage(name, result=None, grow=0):
+        def f(*a, **k):
+            buf = next((x for x in a if isinstance(x, B)), None)
+            rec.append((name, a, k, len(buf) if buf is not None else None))
+            if buf is not None and grow:
+                buf.bits.extend([0] * grow)
+            return result(*a, **k) if callable(result) else result
+        return f
+    it = Interp(max_steps=400_000)
+    M0, M1 = ['M0'], ('M1',)
+    genv = encoder_env(
+        fx.forest, it, Buffer=B,
+        write_segment=stage('write_segment', grow=37),
+        boost_error_level=stage('boost_error_level', None if boosted is None else lv[boosted]),
+        write_terminator=stage('write_terminator', grow=3), write_padding_bits=stage('write_padding_bits', grow=5),
+        write_pad_codewords=stage('write_pad_codewords', grow=16), make_final_message=stage('make_final_message', 'FINAL'),
+        make_matrix=stage('make_matrix', M0), add_finder_patterns=stage('add_finder_patterns'), add_alignment_patterns=stage('add_alignment_patterns'),
+        add_codewords=stage('add_codewords'), find_and_apply_best_mask=stage('find_and_apply_best_mask', (5, M1)),
+        add_format_info=stage('add_format_info'), add_version_info=stage('add_version_info'),
+        Code=stage('Code', lambda *a, **k: ('CODE',) + a))
+    segs = SegmentsModel([SegModel(md['byte'], 'iso-8859-1')])
+    res = FuncVal(fx.fn('encoder', '_encode'), genv, it)(segs, None if level is None else lv[level], version, mask_in, eci, boost_error, sa_info)
+    return rec, res, dict(buffers=bufs, segments=segs, M0=M0, M1=M1)
